@@ -20,7 +20,6 @@ import (
 	"strings"
 	"time"
 
-	"github.com/bwmarrin/snowflake"
 	"github.com/xujiajun/nutsdb/ds/list"
 	"github.com/xujiajun/nutsdb/ds/set"
 	"github.com/xujiajun/nutsdb/ds/zset"
@@ -112,12 +111,11 @@ func newTx(db *DB, writable bool) (tx *Tx, err error) {
 
 // getTxID returns the tx id.
 func (tx *Tx) getTxID() (id uint64, err error) {
-	node, err := snowflake.NewNode(tx.db.opt.NodeNum)
-	if err != nil {
-		return 0, err
+	if tx.db.txIDNodeErr != nil {
+		return 0, tx.db.txIDNodeErr
 	}
 
-	id = uint64(node.Generate().Int64())
+	id = uint64(tx.db.txIDNode.Generate().Int64())
 
 	return
 }
